@@ -204,12 +204,17 @@ pub fn run(ctx: &Ctx) -> Report {
 	total.rule = "explicit-state BFS: state = buffer text of one owned type (RiRefBuf, RiBuf, PathBuf of both families); initial states = Default, from_scheme and compositions scheme x authority x PATH(2) x query x fragment (pass 1, depth d), and only the constructor values '', 's:', '/' (pass 2, depth d+1: every buffer that can be built from nothing by d safe calls, then one more call); transitions = every safe mutator (5 setters, 6 path edits through path_mut, 3 authority edits through authority_mut, in-place resolve) over an argument alphabet that contains every value needing disambiguation; invariant in every reached state: no panic, UTF-8, accepted by the checked constructor of the same type and by the reference DFA, all accessors run; de-duplication on the text is exact because no handle survives a transition; successors longer than 40 bytes are cut (counted). non-trivial = distinct (type, state, operation) transition".into();
 	let depth = ctx.pick(2usize, 3usize);
 	let level = ctx.pick(0u8, 1u8);
-	total.merge(explore!(uri, Family::Uri, ctx, refs, depth, level, false));
+	let uri_too = Family::active().contains(&Family::Uri);
+	if uri_too {
+		total.merge(explore!(uri, Family::Uri, ctx, refs, depth, level, false));
+	}
 	total.merge(explore!(iri, Family::Iri, ctx, refs, depth, level, false));
 	// second pass: longer histories from the values the constructors give (Default, from_scheme,
 	// the empty and the root path), i.e. every buffer that can be BUILT by <= seed_depth safe calls
 	let seed_depth = ctx.pick(3usize, 4usize);
-	total.merge(explore!(uri, Family::Uri, ctx, refs, seed_depth, 0u8, true));
+	if uri_too {
+		total.merge(explore!(uri, Family::Uri, ctx, refs, seed_depth, 0u8, true));
+	}
 	total.merge(explore!(iri, Family::Iri, ctx, refs, seed_depth, 0u8, true));
 	total.distinct_nontrivial = total.transitions;
 	total.evaluations = total.transitions;
